@@ -259,6 +259,141 @@ Section Glue.
   Qed.
 End Glue.
 
+(* ---- every entry position is a CHARACTER BOUNDARY of the text (not only inside it): node spans are, and the one
+   position that is not a node position -- directly after the bracket of macro_args -- follows a one-byte
+   character because the rule's body begins with that literal (TokenFacts.run_first) ---- *)
+Section GlueBnd.
+  Variable P : params.
+  Variable code : list N.
+  Variable strict : string -> bool.
+  Variable first : string -> option N.
+  Hypothesis first_args : first "macro_args" = Some 40.
+
+  Lemma first_kids t : tree_first code first t -> Forall (tree_first code first) (node_kids t).
+  Proof.
+    destruct t as [r s e kids]. intros H. apply (proj1 (tree_first_unfold code first r s e kids)) in H. destruct H as [_ H]. cbn [node_kids].
+    induction kids as [|k kids IH]; [constructor|]. cbn [all_first] in H. destruct H as [Hk H]. constructor; auto.
+  Qed.
+
+  Lemma after_bracket args :
+    is_rule args "macro_args" = true -> tree_first code first args -> bnd code (node_start args + 1).
+  Proof.
+    destruct args as [r s e kids]. unfold is_rule. cbn [node_rule node_start]. intros Hr H.
+    apply String.eqb_eq in Hr. subst r. apply (proj1 (tree_first_unfold code first _ s e kids)) in H. destruct H as [H _].
+    unfold node_first in H. rewrite first_args in H. destruct H as (pre & post & Hc & Hl).
+    exists (pre ++ [40])%list, post. split; [rewrite <- app_assoc; exact Hc|].
+    rewrite blen_app. cbn [blen]. change (cplen 40) with 1. lia.
+  Qed.
+
+  Lemma one_macro_bnd cfg found e :
+    ok code strict found -> tree_first code first found ->
+    one_macro P cfg code found = Emit e -> bnd code (e_pos e).
+  Proof.
+    intros Hok Hfirst. unfold one_macro. pose proof (ok_kids code strict found Hok) as Hkids.
+    pose proof (first_kids found Hfirst) as Hfk.
+    destruct (node_kids found) as [|name_rule inner]; [discriminate|].
+    inversion Hkids as [|? ? Hn Hinner]; subst. inversion Hfk as [|? ? _ Hfinner]; subst.
+    destruct (negb (is_rule name_rule "macro_name")); [discriminate|].
+    destruct (directive_check P (p_ignore P) code (node_start name_rule) (p_comment_re P)) as [[|]|]; try discriminate.
+    destruct (str_slice code (node_start name_rule) (node_end name_rule)) as [name|]; [|discriminate].
+    destruct (negb (macro_of_interest name cfg)); [discriminate|].
+    destruct inner as [|args rest]; [discriminate|]. inversion Hinner as [|? ? Ha _]; subst.
+    inversion Hfinner as [|? ? Hfa _]; subst.
+    destruct (is_rule args "macro_args") eqn:Eargs; cbn [negb]; [|discriminate].
+    pose proof (scan_args_ok code strict (node_kids args) (mkScan None [] false None) (ok_kids code strict args Ha)
+                  ltac:(repeat split; cbn; auto)) as (Hmsg & Hkvs & Hat).
+    set (sc := scan_args (node_kids args) (mkScan None [] false None)) in *.
+    destruct (if cfg_structured cfg then _ else _) as [nk|]; [|discriminate].
+    destruct (cfg_structured cfg && negb nk).
+    - destruct (find_ref_kv_ok P code strict (sc_kvs sc) Hkvs) as [->|(vs & -> & Hvs)].
+      + destruct (sc_after_target sc) as [p|].
+        * destruct (line_col code p) as [[l c]|]; [|discriminate]. intros H. inversion H; subst. cbn [e_pos]. exact Hat.
+        * destruct (line_col code (node_start args)) as [[l c]|]; [|discriminate]. intros H. inversion H; subst.
+          cbn [e_pos]. apply after_bracket; assumption.
+      + destruct (ok_bnd code strict vs Hvs) as (A2 & _ & _).
+        destruct (line_col code (node_start vs)) as [[l c]|]; [|discriminate].
+        destruct (str_slice code (node_start vs) (node_end vs)); [|discriminate].
+        intros H. inversion H; subst. cbn [e_pos]. exact A2.
+    - destruct (sc_msg sc) as [sv|]; [|discriminate].
+      destruct (ok_bnd code strict sv Hmsg) as (A2 & _ & _).
+      destruct (line_col code (node_start sv)) as [[l c]|]; [|discriminate].
+      destruct (str_slice code (node_start sv) (node_end sv)); [|discriminate].
+      intros H. inversion H; subst. cbn [e_pos]. exact A2.
+  Qed.
+
+  Lemma collect_bnd cfg : forall founds acc es,
+    Forall (ok code strict) founds -> Forall (tree_first code first) founds ->
+    Forall (fun e => bnd code (e_pos e)) acc ->
+    collect P cfg code founds acc = Done es -> Forall (fun e => bnd code (e_pos e)) es.
+  Proof.
+    induction founds as [|f founds IH]; intros acc es Hok Hfi Hacc H; cbn [collect] in H.
+    - inversion H; subst. apply Forall_rev. exact Hacc.
+    - inversion Hok as [|? ? Hf Hok2]; subst. inversion Hfi as [|? ? Hff Hfi2]; subst.
+      destruct (is_rule f "log_macro").
+      + destruct (one_macro P cfg code f) as [|e|] eqn:Eom; try discriminate.
+        * eapply IH; eauto.
+        * eapply IH; [exact Hok2|exact Hfi2| |exact H]. constructor; [|exact Hacc].
+          eapply one_macro_bnd; eauto.
+      + destruct (is_rule f "EOI" || is_rule f "other_name"); [|discriminate]. eapply IH; eauto.
+  Qed.
+End GlueBnd.
+
+(* ---- what an entry can ask to have inserted: the default token, or the key-value prefix with one of the two
+   suffixes ---- *)
+Section GlueFormats.
+  Variable P : params.
+
+  Definition fmt_ok (e : entry) : Prop :=
+    (e_prefix e = None /\ e_suffix e = None) \/
+    (e_prefix e = Some (fst (p_fmt_prefix P) ++ p_ref_key P ++ snd (p_fmt_prefix P))%list /\
+     (e_suffix e = Some (nth 0 (p_suffixes P) []) \/ e_suffix e = Some (nth 1 (p_suffixes P) []))).
+
+  Lemma one_macro_formats cfg code found e : one_macro P cfg code found = Emit e -> fmt_ok e.
+  Proof.
+    unfold one_macro.
+    destruct (node_kids found) as [|name_rule inner]; [discriminate|].
+    destruct (negb (is_rule name_rule "macro_name")); [discriminate|].
+    destruct (directive_check P (p_ignore P) code (node_start name_rule) (p_comment_re P)) as [[|]|]; try discriminate.
+    destruct (str_slice code (node_start name_rule) (node_end name_rule)) as [name|]; [|discriminate].
+    destruct (negb (macro_of_interest name cfg)); [discriminate|].
+    destruct inner as [|args rest]; [discriminate|].
+    destruct (negb (is_rule args "macro_args")); [discriminate|].
+    set (sc := scan_args (node_kids args) (mkScan None [] false None)).
+    destruct (if cfg_structured cfg then _ else _) as [nk|]; [|discriminate].
+    destruct (cfg_structured cfg && negb nk).
+    - destruct (find_ref_kv P code (sc_kvs sc)) as [[vs|]| |]; try discriminate.
+      + destruct (line_col code (node_start vs)) as [[l c]|]; [|discriminate].
+        destruct (str_slice code (node_start vs) (node_end vs)); [|discriminate].
+        intros H. inversion H; subst. left. split; reflexivity.
+      + destruct (match sc_after_target sc with Some p => _ | None => _ end) as [[[ipos l] c]|]; [|discriminate].
+        intros H. inversion H; subst. right. cbn [e_prefix e_suffix]. split; [reflexivity|].
+        destruct (sc_kvs sc); [right|left]; reflexivity.
+    - destruct (sc_msg sc) as [sv|]; [|discriminate].
+      destruct (line_col code (node_start sv)) as [[l c]|]; [|discriminate].
+      destruct (str_slice code (node_start sv) (node_end sv)); [|discriminate].
+      intros H. inversion H; subst. left. split; reflexivity.
+  Qed.
+
+  Lemma collect_formats cfg code : forall founds acc es,
+    Forall fmt_ok acc -> collect P cfg code founds acc = Done es -> Forall fmt_ok es.
+  Proof.
+    induction founds as [|f founds IH]; intros acc es Hacc H; cbn [collect] in H.
+    - inversion H; subst. apply Forall_rev. exact Hacc.
+    - destruct (is_rule f "log_macro").
+      + destruct (one_macro P cfg code f) as [|e|] eqn:Eom; try discriminate.
+        * eapply IH; eauto.
+        * eapply IH; [|exact H]. constructor; [eapply one_macro_formats; eauto|exact Hacc].
+      + destruct (is_rule f "EOI" || is_rule f "other_name"); [|discriminate]. eapply IH; eauto.
+  Qed.
+
+  Lemma entries_formats cfg code es : entries P cfg code = Done es -> Forall fmt_ok es.
+  Proof.
+    unfold entries. destruct (parse _ _ _ _ code) as [| |i' [|top toks]]; try discriminate;
+      try (intros H; inversion H; constructor).
+    apply collect_formats. constructor.
+  Qed.
+End GlueFormats.
+
 (* ---- the finder as a whole ---- *)
 Section Finder.
   Variable P : params.
@@ -299,5 +434,33 @@ Section Finder.
     intros f Hf. specialize (Hnames _ (Hkn f Hf)). unfold is_rule.
     destruct (String.eqb (node_rule f) "log_macro"), (String.eqb (node_rule f) "EOI"),
              (String.eqb (node_rule f) "other_name"); cbn in *; congruence.
+  Qed.
+  (* the only rule whose first character the glue relies on *)
+  Definition the_first (r : string) : option N := if String.eqb r "macro_args" then Some 40 else None.
+
+  Theorem entries_bnd name ty impl body :
+    grammar_ok name ty impl body -> first_ok the_first (p_file P) = true ->
+    forall cfg code es, entries P cfg code = Done es -> Forall (fun e => bnd code (e_pos e)) es.
+  Proof.
+    intros (Hfile & Hemit & Hwf & Hstrict & Hnames) Hfirst cfg code es. unfold entries.
+    set (strict := fun r => String.eqb r "macro_args").
+    destruct (parse (p_U P) (p_ws P) (p_comment P) (p_file P) code) as [| |i' toks] eqn:Ep;
+      [intros H; inversion H; constructor|discriminate|].
+    unfold parse in Ep.
+    pose proof (run_tokens code strict (p_U P) (skipf (p_U P) (p_ws P) (p_comment P))
+                  (skipf_adv (p_U P) (p_ws P) (p_comment P)) _ _ _ _ _ _ Hstrict (suffix_init code) Ep) as Htok.
+    assert (Heoi : forall c, the_first "EOI" = Some c -> False) by (intros c Hc; discriminate).
+    pose proof (run_first code the_first Heoi (p_U P) (skipf (p_U P) (p_ws P) (p_comment P))
+                  (skipf_adv (p_U P) (p_ws P) (p_comment P)) _ _ _ _ _ _ Hfirst (suffix_init code) Ep) as Hfi.
+    rewrite Hfile in Ep.
+    destruct (rule_node_shape (p_U P) (skipf (p_U P) (p_ws P) (p_comment P)) name ty impl body NonAtomic false
+                _ _ _ ltac:(destruct ty; exact Hemit) Ep) as (kids & -> & Hkn).
+    cbn [node_kids].
+    cbn [forest_in] in Htok. destruct Htok as (_ & Hle & Htree & _).
+    assert (Hok : ok code strict (Node name (pos {| rest := code; pos := 0 |}) (pos i') kids)) by (split; assumption).
+    pose proof (ok_kids code strict _ Hok) as Hkids. cbn [node_kids] in Hkids.
+    cbn [all_first] in Hfi. destruct Hfi as [Hft _].
+    pose proof (first_kids code the_first _ Hft) as Hfk. cbn [node_kids] in Hfk.
+    intros H. eapply (collect_bnd P code strict the_first eq_refl cfg kids [] es Hkids Hfk); [constructor|exact H].
   Qed.
 End Finder.
